@@ -237,7 +237,7 @@ func parsers(c *simkit.Choices, x *simkit.Ctx) *simkit.Violation {
 				return
 			}
 			if id, ok := p.(idler); ok && !id.VerifIdle() {
-				dd := p.(depthser).VerifDepths()
+				dd, _ := simkit.Depths(p)
 				v = &simkit.Violation{Kind: "stack-not-idle", Site: "parser/" + string(f),
 					Detail: fmt.Sprintf("after complete document %d the parser is not idle: depths %v", i+1, dd), Scenario: sc}
 				return
@@ -313,7 +313,7 @@ func parseMethod(c *simkit.Choices, x *simkit.Ctx) *simkit.Violation {
 				return
 			} else if id, ok := p.(idler); ok && !id.VerifIdle() {
 				v = &simkit.Violation{Kind: "stack-not-idle", Site: "parser.Parse/" + string(f),
-					Detail: fmt.Sprintf("after complete document %d the parser is not idle: depths %v", i+1, p.(depthser).VerifDepths()), Scenario: sc}
+					Detail: fmt.Sprintf("after complete document %d the parser is not idle: depths %v", i+1, func() []int { d, _ := simkit.Depths(p); return d }()), Scenario: sc}
 				return
 			}
 		}
@@ -554,7 +554,8 @@ func unfolder(c *simkit.Choices, x *simkit.Ctx) *simkit.Violation {
 		if keyCache > 0 {
 			u.EnableKeyCache(keyCache)
 		}
-		idle := append([]int{}, u.VerifDepths()...)
+		idle, hooked := simkit.Depths(u)
+		idle = append([]int{}, idle...)
 		for i, d := range docs {
 			ptr, _, val := d.te.NewTarget()
 			if err := u.SetTarget(ptr); err != nil {
@@ -574,9 +575,9 @@ func unfolder(c *simkit.Choices, x *simkit.Ctx) *simkit.Violation {
 			}
 			if c.N(2) == 0 {
 				u.Reset()
-				if !reflect.DeepEqual(u.VerifDepths(), idle) {
+				if now, _ := simkit.Depths(u); hooked && !reflect.DeepEqual(now, idle) {
 					v = &simkit.Violation{Kind: "stack-not-idle", Site: "unfolder/" + d.te.Name,
-						Detail: fmt.Sprintf("after document %d and Reset the unfolder stacks are %v, a new unfolder has %v", i+1, u.VerifDepths(), idle), Scenario: sc}
+						Detail: fmt.Sprintf("after document %d and Reset the unfolder stacks are %v, a new unfolder has %v", i+1, now, idle), Scenario: sc}
 					return
 				}
 			}
